@@ -100,7 +100,7 @@ def clientOp : List String → Option String
   | ["clp", _threads, _mS, _settleS, _app, behS] => do
     -- requests issued concurrently by several application threads; behaviours are restricted to answers that arrive (I, D<ms>):
     -- whatever the issue order, every request is fulfilled with its own answer and the connection limit holds
-    let behs ← (behS.splitOn ",").mapM parseBeh
+    let behs ← ((behS.splitOn ",").filter (· != "/")).mapM parseBeh
     if behs.any (fun b => !(b.kind == 'I' || b.kind == 'D') || b.timeout != 0) then pure "unspecified" else
     pure s!"results={",".intercalate ((List.range behs.length).map fun i => s!"ok:answer-to:{i}")} peak=ok"
   | _ => none
